@@ -191,7 +191,7 @@ func c20(c *Ctx) {
 		{"handleDeleteHalt", []string{"litefs.(*DB).ReleaseHaltLock"}, map[string]*Guard{
 			"id-parsed": nilOf("strconv.ParseInt(" + q("id") + ", 10, 64)#1"), "not-self": notSelf, "db-exists": GP("(litefs.(*Store).DB(@@) == nil)", false)}},
 		{"handlePostTx", []string{"litefs.(*DB).WriteLTXFileAt", "litefs.(*DB).ApplyLTXNoLock"}, map[string]*Guard{
-			"id-parsed": nilOf("strconv.ParseInt(" + q("lockID") + ", 10, 64)#1"), "not-self": notSelf, "db-exists": GP("(litefs.(*Store).DB(@@) == nil)", false), "lock-held": GP("litefs.(*DB).HoldsHaltLock(@@)", true)}},
+			"id-parsed": nilOf("strconv.ParseInt(" + q("lockID") + ", 10, 64)#1"), "not-self": notSelf, "db-exists": GP("(litefs.(*Store).DB(@@) == nil)", false), "lock-held": G(pat("(litefs.(*DB).PinHaltLock(@@) == nil)")+"|"+pat("(nil == litefs.(*DB).PinHaltLock(@@))"), false)}},
 		{"handlePostHandoff", []string{"litefs.(*Store).Handoff"}, map[string]*Guard{
 			"node-id-parsed": nilOf("litefs.ParseNodeID(" + q("nodeID") + ")#1")}},
 		{"handlePostPromote", []string{"http.(*Client).Handoff"}, map[string]*Guard{
